@@ -67,6 +67,9 @@ Record perr := mk_perr {
   e_multi : bool;                            (* it has Errors() *)
   e_msg : string                             (* Error() *)
 }.
+(* an error found in gin's c.Errors when the endpoint handler starts *)
+Inductive ctx_err := CEPlain | CEStatus (n : Z) | CEMeta.
+
 Record input := mk_input {
   i_impl : impl;
   i_render : render;                         (* what getRender(configuration) selects *)
@@ -75,7 +78,9 @@ Record input := mk_input {
   i_ttl : Z;                                 (* CacheTTL in nanoseconds *)
   i_ctx_done : bool;                         (* requestCtx done when the proxy returns *)
   i_errf : Z;                                (* answer of the ToHTTPError translator; stock: 500 *)
-  i_ver : string                             (* core.KrakendHeaderValue *)
+  i_ver : string;                            (* core.KrakendHeaderValue *)
+  i_ctx_errs : list ctx_err                  (* gin only: errors an earlier handler of the chain
+                                                attached with c.Error(..) without aborting *)
 }.
 
 (* ---- outputs: the projection the property speaks of ---- *)
@@ -177,6 +182,9 @@ Definition gin_render (i : input) (h : hdrs) : outcome :=
       end
   end.
 
+(* c.Errors (i_ctx_errs) is only walked to log its entries (`for _, err := range c.Errors`,
+   a loop variable of its own) and, with returnErrorMsg = false, nothing of it reaches the
+   reply: the model does not read i_ctx_errs *)
 Definition gin_handler (i : input) : outcome :=
   match eff_err i, i_resp i with
   | Some e, None => gin_status (err_status i e) (fun st => project st (gin_pre i) (BRaw ""))
@@ -246,7 +254,8 @@ Definition strip_meta (i : input) : input :=
                | Some r => Some {| r_data := r_data r; r_complete := r_complete r; r_meta := [];
                                    r_status := r_status r; r_io := r_io r |}
                | None => None end;
-     i_err := i_err i; i_ttl := i_ttl i; i_ctx_done := i_ctx_done i; i_errf := i_errf i; i_ver := i_ver i |}.
+     i_err := i_err i; i_ttl := i_ttl i; i_ctx_done := i_ctx_done i; i_errf := i_errf i; i_ver := i_ver i;
+     i_ctx_errs := i_ctx_errs i |}.
 
 (* values a metadata map contributes to one reply header *)
 Definition meta_vals (k : string) (meta : list (string * list string)) : list string :=
